@@ -70,6 +70,8 @@ def rule_ids(c, prog):
 
 
 def run(c, prog):
+    from . import C01 as _C01
+    _C01.rule_codes(core.Alias(c, "C14"), prog)     # Font's number tables, relied upon by this property's Font arm
     rule_ids(c, prog)
     from . import C14_rest, C14_arm
     C14_rest.run(c, prog)
